@@ -163,6 +163,16 @@ def Equiv (s t : State) : Prop := erase s = erase t
 
 instance (s t : State) : Decidable (Equiv s t) := inferInstanceAs (Decidable (erase s = erase t))
 
+/-- An answer without its timestamps (Last-Modified of an object view / of listed versions). -/
+def eraseOut : Out → Out
+  | .obj v => .obj { v with updated := 0 }
+  | .versions l => .versions (l.map fun v => { v with updated := 0 })
+  | o => o
+
+def eraseXOut : XOut → XOut
+  | .base o => .base (eraseOut o)
+  | .many os => .many (os.map eraseOut)
+
 /-- The replicas agree with the primary. -/
 def Converged (rs : RState) : Prop := ∀ s ∈ rs.secs, Equiv rs.primary s
 
